@@ -37,6 +37,9 @@ type objState struct {
 
 var heldObjErrs []heldErr
 
+// projection of the previously round-tripped object, per version (C02 history probe)
+var prevProj = map[string][]string{}
+
 func skey(ver string, o []string) string { return ver + "|" + strings.Join(o, ",") }
 
 func project(o Obj, order []string) []string {
@@ -391,7 +394,29 @@ func checkState(prop string, v *Ver, ord []string, key string, o Obj, ms *objSta
 		}
 		if !eqs(project(back, ord), project(o, ord)) {
 			viol("ParseVector(Vector()) differs from the original on some Get", project(o, ord), project(back, ord))
+			return
 		}
+		// history: edit the object the parser returned (give it the values of the previously visited object),
+		// then round-trip the SAME original again
+		mine := project(o, ord)
+		if prev, ok := prevProj[vn]; ok {
+			for i, m := range ord {
+				back.Set(m, prev[i])
+			}
+			var back2 Obj
+			var err2 error
+			if p, _ := safely(func() { back2, err2 = v.Parse(o.Vector()) }); !p {
+				col.count("round trips repeated after the first parsed copy was edited", 1)
+				if err2 != nil || back2 == nil || !back2.Same(o) || !eqs(project(back2, ord), mine) {
+					var got []string
+					if back2 != nil {
+						got = project(back2, ord)
+					}
+					viol("ParseVector(Vector()) != original object (after the result of an earlier parse of the same string was edited)", mine, got)
+				}
+			}
+		}
+		prevProj[vn] = mine
 	case "C09":
 		// every Get legal and equal to the model (already compared); Vector() grammatical; scoring does not panic
 		var vec string
